@@ -9,6 +9,7 @@ import (
 	"os"
 	"runtime"
 	"slices"
+	"sort"
 	"strings"
 
 	"golang.org/x/tools/go/ssa"
@@ -467,6 +468,11 @@ func (fr *frame) symIndexAddr(instr *ssa.IndexAddr, cells []value, idx *Term, it
 	idx = fr.boundsCheck(idx, it, len(cells))
 	et := deref(instr.Type())
 	if _, basic := et.Underlying().(*types.Basic); !basic || len(cells) > 512 {
+		if readOnlyAddr(instr, 0) {
+			if p := fr.pickByClass(cells, idx, et); p != nil {
+				return p
+			}
+		}
 		k := i.concretize(idx, "index of non-scalar slice element")
 		return &cells[k]
 	}
@@ -814,4 +820,111 @@ func (fr *frame) stackString(n int) string {
 		parts = append(parts, f.fn.String())
 	}
 	return strings.Join(parts, " <- ")
+}
+
+// readOnlyAddr reports whether the address produced by v is only ever read (loaded, or used to
+// address fields/elements that are only read).
+func readOnlyAddr(v ssa.Value, depth int) bool {
+	if depth > 4 {
+		return false
+	}
+	refs := v.Referrers()
+	if refs == nil {
+		return false
+	}
+	for _, r := range *refs {
+		switch x := r.(type) {
+		case *ssa.UnOp:
+			if x.Op != token.MUL {
+				return false
+			}
+		case *ssa.FieldAddr:
+			if !readOnlyAddr(x, depth+1) {
+				return false
+			}
+		case *ssa.IndexAddr:
+			if x.X != v || !readOnlyAddr(x, depth+1) {
+				return false
+			}
+		case *ssa.DebugRef:
+		default:
+			return false
+		}
+	}
+	return true
+}
+
+// pickByClass resolves a read-only symbolic index into a table of aggregates by forking over the
+// classes of identical elements instead of over every index.
+func (fr *frame) pickByClass(cells []value, idx *Term, et types.Type) value {
+	i := fr.i
+	type class struct {
+		rep   int
+		items []int
+	}
+	var classes []*class
+	byKey := map[interface{}]*class{}
+	for k, c := range cells {
+		ck, ok := canonKey(et, c)
+		if !ok {
+			return nil
+		}
+		key := fmt.Sprintf("%T|%v", ck, ck)
+		cl := byKey[key]
+		if cl == nil {
+			cl = &class{rep: k}
+			byKey[key] = cl
+			classes = append(classes, cl)
+		}
+		cl.items = append(cl.items, k)
+	}
+	if len(classes) > 12 {
+		// many classes: for structs of scalar fields build the element field-wise as ite trees
+		// over the table (no forking); the address is only read, so a fresh cell is equivalent
+		if st, ok := et.Underlying().(*types.Struct); ok {
+			res := make(structure, st.NumFields())
+			for f := 0; f < st.NumFields(); f++ {
+				k, basic := basicKind(st.Field(f).Type())
+				if !basic || kindWidth(k) == 64 && (k == types.Float64 || k == types.String) || k == types.String || k == types.Float32 || k == types.Float64 {
+					return nil
+				}
+				col := make([]value, len(cells))
+				for c := range cells {
+					col[c] = cells[c].(structure)[f]
+				}
+				res[f] = norm(k, i.selectCell(col, idx).(*Term))
+			}
+			cell := value(res)
+			return &cell
+		}
+		return nil
+	}
+	// smallest classes first; the last (largest) class needs no decision
+	sort.Slice(classes, func(a, b int) bool { return len(classes[a].items) < len(classes[b].items) })
+	for n, cl := range classes {
+		if n == len(classes)-1 {
+			return &cells[cl.rep]
+		}
+		var member *Term = i.tt.False
+		// build membership as a union of ranges
+		for s := 0; s < len(cl.items); {
+			e := s
+			for e+1 < len(cl.items) && cl.items[e+1] == cl.items[e]+1 {
+				e++
+			}
+			lo, hi := uint64(cl.items[s]), uint64(cl.items[e])
+			var r *Term
+			if lo == hi {
+				r = i.tt.Eq(idx, i.tt.Const(idx.W, lo))
+			} else {
+				r = i.tt.And(i.tt.Bin(OpULe, i.tt.Const(idx.W, lo), idx), i.tt.Bin(OpULe, idx, i.tt.Const(idx.W, hi)))
+			}
+			member = i.tt.Or(member, r)
+			s = e + 1
+		}
+		if i.decide(member) {
+			return &cells[cl.rep]
+		}
+	}
+	return nil
 }
